@@ -333,9 +333,52 @@ def run_cli(res, ast):
     res.check(len(codes) == 1 and ast.src1(HPBF, codes[0]["init"]) == "String::new()", "CLI-CONCAT", f"{HPBF}|main|code-var", w0,
               "there must be one `let mut code = String::new()`")
     if loops:
-        rts = [m for m in walk_t(loops[0], "MethodCall") if m["method"] == "read_to_string"]
-        ok = len(rts) == 1 and ast.src1(HPBF, rts[0]["args"][0]).replace(" ", "") == "&mut" + N["code"]
-        res.check(ok, "CLI-CONCAT", f"{HPBF}|main|file-append", w0, "file contents must be appended to `code` (read_to_string(&mut code)) inside the argument loop")
+        # the `-f <file>` operand: its branch of the argument loop is evaluated for the three outcomes of (open, read); helper functions of this file
+        # are followed.  success: the file is read into `code` (appended: read_to_string) and nothing is flagged; either failure: the error is
+        # reported through the error reporter and has_error becomes true
+        import trace as _trf
+        branch = [i_ for i_ in walk_t(loops[0]["body"], "If") if path_name(strip_paren(i_["cond"])) == N["next_is_file"]]
+        argv = loops[0]["pat"].get("name") if loops[0]["pat"]["t"] == "PIdent" else None
+        probs = []
+        if len(branch) != 1 or argv is None:
+            probs.append("the branch that consumes the operand of -f was not found")
+        else:
+            CODE, ARG = _trf.Sym("var:code"), _trf.Sym("var:arg")
+            for what, fail in (("file read", ()), ("open fails", ("open",)), ("read fails", ("read_to_string",))):
+                it = _trf.TraceInterp(ast, HPBF, fallible=("open", "read_to_string"), fail=fail)
+                it.fns.pop(pe["name"], None)       # the error reporter is an effect, not something to look into
+                env_ = _trf.Env()
+                for nm_, v_ in ((N["code"], CODE), (argv, ARG), (N["has_error"], False), (N["next_is_file"], True), (N["next_is_limit"], False)):
+                    env_.bind(nm_, v_)
+                res.evaluations += 1
+                try:
+                    it.exec_block(branch[0]["then"], env_)
+                except (_trf.Unanalysable, _trf.Reached, _trf.ReturnEx, _trf.ExitEx, KeyError, TypeError, AttributeError) as u_:
+                    probs.append(f"{what}: cannot be analysed (fail closed): {type(u_).__name__} {u_}")
+                    continue
+                reads = [e_ for e_ in it.events if e_[0] == "method" and e_[1] == "read_to_string"]
+                reports = [e_ for e_ in it.events if e_[0] == "call" and e_[1].split("::")[-1] == pe["name"]]
+                flagged = env_.get(N["has_error"])
+                opened = [e_ for e_ in it.events if e_[0] == "call" and e_[1].split("::")[-1] == "open"]
+                if not opened or not any(_trf.derives_from(a_, ARG) for a_ in opened[0][2]):
+                    probs.append(f"{what}: the file named by the argument is not opened")
+                if not fail:
+                    if len(reads) != 1 or list(reads[0][3]) != [CODE] or not _trf.derives_from(reads[0][2], ARG):
+                        probs.append("the file's contents are not read into `code` with read_to_string (append)")
+                    if flagged is not False or reports:
+                        probs.append("a successfully read file is reported / flagged as an error")
+                else:
+                    if not reports:
+                        probs.append(f"{what}: the error is not reported")
+                    if flagged is not True:
+                        probs.append(f"{what}: has_error is not set: the process would exit 0")
+                    if fail == ("open",) and reads:
+                        probs.append("open fails: the file is read although it could not be opened")
+        res.check(not [p_ for p_ in probs if "has_error" not in p_ and "not reported" not in p_], "CLI-CONCAT", f"{HPBF}|main|file-append", w0,
+                  "file contents must be appended to `code` inside the argument loop: " + "; ".join(probs[:2]))
+        res.rule("CLI-EXIT", "every diagnosed error goes to stderr, sets has_error, suppresses execution, and the process "
+                 "exits 1 iff has_error else 0") if False else None
+        FILE_PROBS = [p_ for p_ in probs if "has_error" in p_ or "not reported" in p_ or "cannot be analysed" in p_]
         writes = [a for a in walk_t(mb, "Assign") if path_name(a["left"]) == N["code"]]
         clears = [m for m in walk_t(mb, "MethodCall") if path_name(m["receiver"]) == N["code"] and m["method"] in ("clear", "truncate", "insert_str", "insert", "replace_range")]
         res.check(not writes and not clears, "CLI-CONCAT", f"{HPBF}|main|append-only", w0, "`code` must only ever be appended to")
@@ -345,9 +388,9 @@ def run_cli(res, ast):
     res.check(len(unsafe_calls) == 1, "CLI-MODE", f"{HPBF}|execute_unsafe-sites", HPBF, f"execute_unsafe must be called exactly once (after the pre-allocation); found {len(unsafe_calls)}")
     # ------------------------------------------------------------------ exit
     par = parents(main["node"])
+    # every call of the error reporter in main itself is followed by has_error = true in the same block
     pes = [c for c in walk_t(mb, "Call") if path_name(c["func"]) == pe["name"]]
     for i, c in enumerate(pes):
-        # the enclosing block must assign has_error = true after the call
         cur = c
         blk = None
         while id(cur) in par:
@@ -355,10 +398,12 @@ def run_cli(res, ast):
             if cur["t"] == "Block":
                 blk = cur
                 break
-        txt = ast.src1(HPBF, blk, 600).replace(" ", "") if blk else ""
-        res.check(N["has_error"] + "=true;" in txt, "CLI-EXIT", f"{HPBF}|main|print_error|{i}", where(HPBF, c, "main"),
+        sets_ = blk is not None and any(path_name(strip_paren(a_["left"])) == N["has_error"] and strip_paren(a_["right"]).get("value") is True for a_ in walk_t(blk, "Assign"))
+        res.check(bool(sets_), "CLI-EXIT", f"{HPBF}|main|print_error|{i}", where(HPBF, c, "main"),
                   "a diagnosed error does not set has_error: the process would exit 0")
-    res.check(len(pes) >= 3, "CLI-EXIT", f"{HPBF}|main|print_error-sites", w0, f"expected the two file errors and the execution error to be reported; found {len(pes)} print_error calls")
+    # the two file errors (evaluated above on the -f branch, helpers followed)
+    fp_ = locals().get("FILE_PROBS", ["the -f branch was not analysed"])
+    res.check(not fp_, "CLI-EXIT", f"{HPBF}|main|print_error-sites", w0, "an unreadable or undecodable -f file must be reported and must set has_error: " + "; ".join(fp_[:2]))
     # the process status: evaluate the statements that lead to exit() for has_error in {true, false}
     import trace as _tr
     stm = mb["stmts"]
